@@ -25,7 +25,7 @@ EPS = float(numpy.finfo(float).eps)
 DHS_Q = [0.1, 0.25, 1.0]
 DHS_T = [0.1, 0.25, 1.0, 0.05, 0.2, 0.5]
 ANCH_Q = [(0.0, 0.0), (-0.3, -0.2), (-125.4, 31.5), (165.7, -47.8), (4.9, 35.3), (-180.0, -90.0)]
-FINE = [(0.0078125, (10.0234375, 45.0078125)), (0.0015625, (-0.0046875, 0.0015625)), (0.1, (12.3456789, -7.1234567)),
+FINE = [(0.001, (359.0, 0.0)), (0.001, (0.0, -89.0)), (0.0078125, (10.0234375, 45.0078125)), (0.0015625, (-0.0046875, 0.0015625)), (0.1, (12.3456789, -7.1234567)),
         (0.015625, (-125.484375, 31.515625))]
 ANCH_T = ANCH_Q + [(179.0, 89.0), (-0.05, -0.05)]
 
@@ -186,7 +186,9 @@ def axis_probes(b, u, dh, K):
     w = floats.window_vec(ext, K).ravel()
     mids = b + dh / 2
     extra = numpy.array([b[0] - dh / 2, b[0] - dh, u + dh / 2, u + dh, -1e6, 1e6])
-    return numpy.unique(numpy.concatenate([w, mids, extra]))
+    # fixed ABSOLUTE distances below every boundary (the reference decides with its slack whether a probe is in the tolerance zone)
+    below = numpy.concatenate([ext - d for d in (1e-14, 1e-13, 1e-12, 1e-10, 1e-7)])
+    return numpy.unique(numpy.concatenate([w, mids, extra, below]))
 
 
 # ------------------------------------------------------------------ judging one region
@@ -226,6 +228,20 @@ def judge_region(reg, ref, lons, lats, desc, failures, hsh, counters, cells=None
              f'[{int(bad_i.sum())} such probes]', [float(lons[i]), float(lats[i])])
     if not full_api:
         return evals
+    # --- the same points handed over in other legitimate forms: byte-swapped (big-endian) float64 arrays, Python lists
+    ins = ~masked
+    if ins.any():
+        for form, cv in (('big-endian-float64', lambda a: a.astype('>f8')), ('list', lambda a: [float(x) for x in a])):
+            try:
+                m2 = numpy.asarray(reg.get_masked(cv(lons), cv(lats)))
+                i2 = numpy.asarray(reg.get_index_of(cv(lons[ins]), cv(lats[ins])))
+                evals += 2
+                if not numpy.array_equal(m2, masked) or not numpy.array_equal(i2, idx[ins]):
+                    k = int(numpy.nonzero(i2 != idx[ins])[0][0]) if len(i2) == int(ins.sum()) and (i2 != idx[ins]).any() else 0
+                    fail('get_index_of', f'result-depends-on-argument-form:{form}', f'{int((i2 != idx[ins]).sum()) if len(i2) == int(ins.sum()) else "?"} of {int(ins.sum())} '
+                         f'points get another cell when given as {form}; first: ({lons[ins][k]!r},{lats[ins][k]!r})', [float(lons[ins][k]), float(lats[ins][k])])
+            except Exception as e:
+                fail('get_index_of', f'{type(e).__name__}:{form}', f'{type(e).__name__}: {e}')
     # --- cross-API agreement (exact, tolerance-free) ---------------------------------------------
     # get_index_of raises iff some point of the call is masked: one call per distinct latitude
     for lat in numpy.unique(lats):
